@@ -173,7 +173,7 @@ theorem g4_raiseSig (st : St) (s : Int) : G4 st (raiseSig st s) := by
   · split
     · exact G4.of_eq rfl rfl rfl rfl rfl rfl rfl
     · split
-      · exact G4.of_eq rfl rfl rfl rfl rfl rfl rfl
+      · unfold sigRecord; split <;> first | exact G4.of_eq rfl rfl rfl rfl rfl rfl rfl | exact G4.refl _
       · split
         · exact G4.of_eq rfl rfl rfl rfl rfl rfl rfl
         · exact G4.refl st
@@ -1012,7 +1012,9 @@ theorem g4_pollTimeout (st : St) (t : Option Int) : G4 st (pollTimeout st t) := 
   · exact G4.refl _
 
 
-theorem g4_deliverPending (st : St) : G4 st (deliverPending st) := G4.of_eq rfl rfl rfl rfl rfl rfl rfl
+theorem g4_deliverPending (st : St) : G4 st (deliverPending st) := by
+  unfold deliverPending
+  split <;> exact G4.of_eq rfl rfl rfl rfl rfl rfl rfl
 
 
 theorem g4_ppoll (st : St) (t : Option Int) : G4 st (ppoll st t).1 := by
